@@ -53,6 +53,8 @@ def shards(tier, seed):
         add("A", dict(N=3, G=2), 8, max_sites=1, max_muts=2, states=("0", "1"), cfg="lite", times_mode="known", flagmode="some")
         add("B", dict(N=3, G=2), 6)
         add("B", dict(N=4, G=2, ), 120, flagmode="allsamples")
+        # three trees: a site on an internal breakpoint can be decoded after a site in a strictly later tree
+        add("B", dict(N=3, G=3), 24, flagmode="some")
     else:
         add("A", dict(N=2, G=2, times="weak"), 4, max_sites=1, max_muts=3, states=("0", "1", "2"), cfg="full")
         add("A", dict(N=3, G=1, times="weak"), 4, max_sites=1, max_muts=3, states=("0", "1", "2"), cfg="full")
@@ -290,9 +292,16 @@ def check_A(m, placement, times_mode, cfg, acc, anc="0"):
     acc.sample({"member": m.desc(), "placement": placement})
 
 
-def fixed_multisite(m):
-    """4 sites (G=2) on the half grid: one mutation on node j%N, a back mutation at site 1."""
+def fixed_multisite(m, variant=0):
+    """One site on every half-grid position (so every internal breakpoint carries a site).
+    variant 0: mutation on node j%N, a back mutation at site 1, a double hit at site 2;
+    variant 1: every site has a mutation on the oldest node; variant 2: on the second oldest
+    node (state 1) and on node 0 (state 2)."""
     pos = MU.site_positions(m)
+    if variant == 1:
+        return [(x, "0", [(m.N - 1, "1")]) for x in pos]
+    if variant == 2:
+        return [(x, "0", [(max(m.N - 2, 0), "1"), (0, "2")] if m.N > 1 else [(0, "1")]) for x in pos]
     out = []
     for j, x in enumerate(pos):
         ml = [(j % m.N, "1")]
@@ -304,14 +313,14 @@ def fixed_multisite(m):
     return out
 
 
-def check_B(m, acc):
+def check_B(m, acc, variant=0):
     """Decode-order histories and whole-matrix views on a multi-site member."""
     import tskit
 
-    placement = fixed_multisite(m)
+    placement = fixed_multisite(m, variant)
     tc = m.tables()
     MU.add_sites(tc, m, placement)
-    case0 = {"kind": "B", "member": m.desc()}
+    case0 = {"kind": "B", "member": m.desc(), "variant": variant}
     acc.enter(case0)
     ts = tc.tree_sequence()
     rts = RefTS.from_tables(tc)
@@ -406,9 +415,11 @@ def run_shard(spec):
                 check_A(m, pl, spec.get("times_mode", "unknown"), spec["cfg"], acc)
     else:
         fm = spec.get("flagmode", "all")
+        fm = c06_flags if fm == "some" else fm
         for m in U.shard(U.enumerate_members(flags=fm, **b), spec["k"], spec["n"]):
             if m.N:
-                check_B(m, acc)
+                for variant in (0, 1, 2):
+                    check_B(m, acc, variant)
     return acc.result()
 
 
@@ -419,5 +430,5 @@ def replay(case):
         pl = [(p[0], p[1], [tuple(x) for x in p[2]]) for p in case["placement"]]
         check_A(m, pl, case["times_mode"], case["cfg"], acc)
     else:
-        check_B(m, acc)
+        check_B(m, acc, case.get("variant", 0))
     return acc.failures
